@@ -111,4 +111,25 @@ theorem resolve_fix (fs : FS) (fuel : Nat) : ∀ (r cur : List String), RealDir 
       exact ih (cur ++ [c]) (realDir_concat hcur hd) (fun n h => hn n (List.mem_cons_of_mem _ h))
         (by rw [← e]; exact hreal)
 
+/-! ### Worlds used by the statements of Props/C31 -/
+
+/-- well-formed world: the current directory is a chain of real directories with proper names
+(relevant only when the configured work directory is a relative path) -/
+def WF (w : World) : Prop := RealDir w.fs w.cwd ∧ ∀ n ∈ w.cwd, ValidName n
+
+/-- `/wd/l -> /etc` -/
+def wEscape : World :=
+  { fs := [(["wd"], .dir), (["wd", "l"], .link "/etc"), (["etc"], .dir), (["etc", "passwd"], .file)] }
+
+/-- a sibling directory whose name extends the work directory's name -/
+def wSibling : World :=
+  { fs := [(["wd"], .dir), (["wd-evil"], .dir), (["wd-evil", "x"], .file)] }
+
+/-- a world whose work directory `/work` is a symlink to `srv/data`, with a relative symlink inside -/
+def wOk : World :=
+  { fs := [(["srv"], .dir), (["srv", "data"], .dir), (["srv", "data", "a"], .dir),
+           (["srv", "data", "a", "f.vpl"], .file), (["srv", "data", "cur"], .link "a/../a"),
+           (["work"], .link "srv/data")] }
+
+
 end Varpulis.PathSec
